@@ -11,6 +11,7 @@ import (
 	"bytes"
 	"fmt"
 	"io"
+	"math"
 	"slices"
 )
 
@@ -47,7 +48,10 @@ type reader struct {
 
 // Returns a new fastq reader that reads from r.
 func newReader(r io.Reader) *reader {
-	return &reader{s: bufio.NewScanner(r)}
+	s := bufio.NewScanner(r)
+	// Reads may be longer than the scanner's default 64 KiB token limit.
+	s.Buffer(nil, math.MaxInt)
+	return &reader{s: s}
 }
 
 // Reads the next fastq entry from the reader.
